@@ -360,6 +360,17 @@ partial def loop (wt : WidthTable) (h : IO.FS.Stream) (d : DState) : IO Unit := 
       ((spanOfStr ins).getD Span.empty) (keep = "1"))
     o.flush
     loop wt h d
+  | ["fixutf8", hx] =>
+    let o ← IO.getStdout
+    o.putStrLn (hexOrDash (replaceInvalidUTF8 ((bytesOfHex hx).getD []))); o.flush
+    loop wt h d
+  | ["fit", hx, limit] =>
+    let o ← IO.getStdout
+    (match splitRunToFit wt.lookup ((bytesOfHex hx).getD []) limit.toNat! with
+     | some (hd, hw, rs, rw) => o.putStrLn s!"{hexOrDash hd} {hw} {hexOrDash rs} {rw}"
+     | none => o.putStrLn "none")
+    o.flush
+    loop wt h d
   | ["ansi", fg, bg, ul] =>
     let st : Style := ⟨BitVec.ofNat 32 fg.toNat!, BitVec.ofNat 32 bg.toNat!, BitVec.ofNat 32 ul.toNat!⟩
     let o ← IO.getStdout
